@@ -9,13 +9,17 @@ import (
 
 var props = []*common.Prop{
 	{ID: "C10", New: func() interface{} { return &HTTPCase{} },
-		Gen:    func(r *simrt.Rand, tier string, idx int) interface{} { return genHTTPCase(r, tier) },
+		Gen:    func(r *simrt.Rand, tier string, idx int) interface{} { return genHTTPCase(r, tier, idx) },
 		Run:    runHTTP,
 		Shrink: shrinkHTTP, Exclude: excludeHTTP},
 	{ID: "C14", New: func() interface{} { return &WSCase{} },
 		Gen:    func(r *simrt.Rand, tier string, idx int) interface{} { return genWSCase(r, tier) },
 		Run:    runWS,
 		Shrink: shrinkWS},
+	{ID: "C11", New: func() interface{} { return &OwnE2E{} },
+		Gen:    func(r *simrt.Rand, tier string, idx int) interface{} { return genOwnE2E(r, tier, idx) },
+		Run:    runOwnE2E,
+		Shrink: shrinkOwnE2E},
 }
 
 func TestWorker(t *testing.T) { common.WorkerMain(t, props) }
